@@ -98,7 +98,7 @@ def seeded_all():
     ok = True
     for name in sorted(idx):
         patch = os.path.join(vlib.ROOT, 'seeded', name, 'patch.diff')
-        want = [p for p, how in idx[name]['detected_by'].items() if 'exit 1' in how]
+        want = [p for p, how in idx[name]['detected_by'].items() if 'exit 1' in how and not how.startswith('exit 0')]  # (texts of neutralised seeds start with 'exit 0' and mention an earlier 'exit 1')
         if not os.path.exists(patch) or not want:
             continue
         if subprocess.run(['git', '-C', vlib.REPO, 'apply', patch]).returncode != 0:
